@@ -232,6 +232,10 @@ def run(ctx):
         cclass = sym.Adt("grammar::Instruction", None, [sym.StrV("Constant"), z3.BitVecVal(43, 32), sym.Sym("c", "&[Capability]"), sym.Sym("e", "&[&str]"), sym.Sym("o", "&[LogicalOperand]")])
         prefix = [sym.Adt("constructs::Instruction", None, [sym.Ref(("h", "cclass"), ()), base.some(z3.BitVec("c_rt", 32)), base.some(z3.BitVec("c_id", 32)),
                                                             base.vec([sym.Adt("dr::constructs::Operand", "LiteralBit32", [z3.BitVec("c_v", 32)])])])]
+        # ... preceded by a declaration WITHOUT a result id (a hand-made or continued module may hold one) whose opcode and operands
+        # are arbitrary — possibly those of the request: it can never be the answer to a request, and must not stop the search
+        pclass = sym.Adt("grammar::Instruction", None, [sym.StrV("?"), z3.BitVec("idless_opcode", 32), sym.Sym("c", "&[Capability]"), sym.Sym("e", "&[&str]"), sym.Sym("o", "&[LogicalOperand]")])
+        idless = sym.Adt("constructs::Instruction", None, [sym.Ref(("h", "pclass"), ()), base.none(), base.none(), base.vec([])])   # (no operands: it can coincide with the operand-less type requests; inserted before the SECOND request)
         P_ = len(prefix)
         mod0 = b0.fields[bidx["module"]]
         mf0 = list(mod0.fields)
@@ -248,7 +252,7 @@ def run(ctx):
         bf0[bidx["module"]] = sym.Adt(mod0.ty, None, mf0)
         b0 = sym.Adt(b0.ty, None, bf0)
         try:
-            r1 = [r for r in eng.run(fn, [sym.Ref(("h", "b"), (), True)] + a1, mem={("h", "b"): b0, ("h", "cclass"): cclass, ("h", "dclass"): dclass, ("h", "nclass"): nclass}, pc=list(pre)) if r.status == "return"]
+            r1 = [r for r in eng.run(fn, [sym.Ref(("h", "b"), (), True)] + a1, mem={("h", "b"): b0, ("h", "cclass"): cclass, ("h", "dclass"): dclass, ("h", "nclass"): nclass, ("h", "pclass"): pclass}, pc=list(pre)) if r.status == "return"]
         except mir.Unsupported as ex:
             ctx.ob("types/%s/encodable" % name, None, str(ex)[:300])
             continue
@@ -274,6 +278,14 @@ def run(ctx):
                 else:
                     a2.append(bsweep.synth(eng2, ty, "second" + loc)[-1])
             mem2 = dict(r1[0].mem)
+            bb = mem2[("h", "b")]
+            mm = bb.fields[bidx["module"]]
+            mmf = list(mm.fields)
+            mmf[tgv] = base.vec([idless] + list(mmf[tgv].items))
+            bbf = list(bb.fields)
+            bbf[bidx["module"]] = sym.Adt(mm.ty, None, mmf)
+            mem2[("h", "b")] = sym.Adt(bb.ty, None, bbf)
+            P2 = P_ + 1
             res2 = eng2.run(fn, [sym.Ref(("h", "b"), (), True)] + a2, mem=mem2, pc=list(r1[0].pc))
             same_req = args_equal(eng2, None, [x for x in a1 if not (isinstance(x, sym.Adt) and x.ty == "Option" and not x.fields and False)],
                                   [y for y in a2])
@@ -289,15 +301,15 @@ def run(ctx):
                 nxt = b2.fields[bidx["next_id"]]
                 # struct_eq on opaque operands introduces eq(...) atoms with the same naming; tie them to same_req through the path condition
                 if explicit:
-                    cond = z3.Or(r.value != w, nxt != nid + 1) if n2 == P_ + 2 else z3.BoolVal(True)
-                    if n2 == P_ + 2:
+                    cond = z3.Or(r.value != w, nxt != nid + 1) if n2 == P2 + 2 else z3.BoolVal(True)
+                    if n2 == P2 + 2:
                         last = b2.fields[bidx["module"]].fields[tgv].items[-1]
                         rid = last.fields[2]
                         cond = z3.Or(cond, rid.fields[0] != w) if rid.variant == "Some" else z3.BoolVal(True)
                     st, m = q.check(r.pc + [cond], "explicit-type-request")
                     good = st == "unsat"
                     what = "a request with an explicit id must append a declaration carrying that id"
-                elif n2 == P_ + 1:
+                elif n2 == P2 + 1:
                     st, m = q.check(r.pc + [z3.Or(r.value != nid, nxt != nid + 1, z3.Not(same_req))], "dedup-type-request")
                     good = st == "unsat"
                     what = "nothing appended: must be an identical request and return the earlier id without touching the counter"
@@ -312,13 +324,13 @@ def run(ctx):
                     st, m = q.check(r.pc + [c], "fresh-type-request")
                     good = st == "unsat"
                     what = "appended: must be a different request, carry the fresh id and advance the counter by one"
-                tag = "types/%s/%s/%s" % (name, "explicit" if explicit else "implicit", "appended" if n2 == P_ + 2 else "deduplicated")
+                tag = "types/%s/%s/%s" % (name, "explicit" if explicit else "implicit", "appended" if n2 == P2 + 2 else "deduplicated")
                 if good:
                     ctx.ob(tag, True)
                 else:
                     ctx.ob(tag, False if st == "sat" else None, what)
                     if st == "sat":
-                        role = "builder-types/%s/%s" % (name, "explicit-id" if explicit else ("dedup" if n2 == P_ + 1 else "fresh"))
+                        role = "builder-types/%s/%s" % (name, "explicit-id" if explicit else ("dedup" if n2 == P2 + 1 else "fresh"))
                         msg = "Builder::%s, second request (%s id) on a module holding a constant and one declaration: %s" % (name, "explicit" if explicit else "implicit", what)
                         if explicit:
                             real = rp.ask("builder_ids %s 0 50 explicit" % name)
@@ -334,10 +346,10 @@ def run(ctx):
                         else:
                             # native confirmation: the identical implicit request twice must give one declaration and the same id
                             conforming = True
-                            for mode_ in ("", " decorated"):
+                            for mode_ in ("", " decorated", " idless"):
                                 real = rp.ask("builder_type_twice %s%s" % (name, mode_))
                                 conforming = "error" in real or ("panic" not in real and real.get("first") == real.get("second") and real.get("n1") == real.get("n0", 0) + 1 and real.get("n2") == real.get("n1"))
-                                if name.endswith("_id") and "error" not in real and "panic" not in real:
+                                if (name.endswith("_id") or mode_ == " idless") and "error" not in real and "panic" not in real:
                                     conforming = real.get("first") == real.get("second") and real.get("n2") == real.get("n1")
                                 if not conforming:
                                     break
